@@ -157,6 +157,7 @@ func c16(c *Ctx) {
 	// ---- http ----
 	pi := "http.(*Server).handlePostImport"
 	c.importBodyBeforeCreate("http/import")
+	c.shortDatabaseTolerated("restart")
 	c.exportCommandFile("cli")
 	c.ExpectAll("http/import-ctx", c.CallArgs(pi, p.PlainCalls(im), 1), pat("net/http.(*Request).Context(net/http.(*Request).WithContext(p2, litefs.(*Store).PrimaryCtx(p0.store, net/http.(*Request).Context(p2))))"), 1, "the import runs under the primary-lease context", "an import that outlives the lease would publish as a non-primary")
 	c.Guarded("http/import-name-required", pi, p.PlainCalls("litefs.(*Store).CreateDBIfNotExists"), gs(G(`\("" == .*\)`, false)), 1, "an empty name is refused before a database is created", "")
